@@ -1,6 +1,8 @@
 SPECIFICATION MCSpec
 CONSTANTS WakeAll = TRUE
  NotifyOnFail = TRUE
+ NarrowLock = FALSE
+ MaxWriters = 1
  MaxReaders = 3
  MaxStores = 2
  MaxCancel = 1
